@@ -408,10 +408,20 @@ def bound(ctx: Any) -> List[Ob]:
     # cache-first loader reads by the instance name / host
     lc = prog.func(INFO + '._load_from_cache')
     rows = []
+    single = []
+    cache_cls = prog.cls('zeroconf._cache.DNSCache')
+    by_details = {n_ for n_, m_ in cache_cls.methods.items() if len(m_.params) == 4}
     for c in walk_local_ordered(lc.node):
-        if isinstance(c, ast.Call) and call_name(c) == 'get_by_details':
+        if isinstance(c, ast.Call) and call_name(c) in by_details and len(c.args) == 3:
             rows.append((norm(c.args[0]), prog.try_fold(lc.module, c.args[1])[1], prog.try_fold(lc.module, c.args[2])[1]))
-    obs.append(ob(R, lc, f'cache lookups: {rows}', 'SRV and TXT are looked up under the instance name, class IN', rows == [(f'{lc.params[0]}._name', 33, 1), (f'{lc.params[0]}._name', 16, 1)]))
+            ret = cache_cls.methods[call_name(c)].node.returns
+            if ret is None or 'List' not in norm(ret):
+                single.append(c)
+    obs.append(ob(R, lc, f'cache lookups: {rows}', 'SRV and TXT are looked up under the instance name, class IN', sorted(rows, key=str) == sorted([(f'{lc.params[0]}._name', 33, 1), (f'{lc.params[0]}._name', 16, 1)], key=str)))
+    # ... among ALL the cached records of that name and type: a reader that picks one record (the one added last) hands back an
+    # expired, not yet purged copy in preference to a live one that was refreshed in place -- the lookup then transmits (and even
+    # omits the question, since the query builder does see the live record) although the cache suffices
+    obs.append(ob(R, lc, single[0] if single else 'cache.get_all_by_details(self._name, <SRV | TXT>, _CLASS_IN)', 'the cached SRV / TXT records are taken from a reader that returns every record of the name and type (each is then accepted or rejected by its own expiry)', bool(rows) and not single, 'a single-record reader returns the record added last whether or not it has expired: an expired copy shadows a live one' if single else ''))
     # all cached addresses of the host are loaded: the A / AAAA scan runs whenever the host is the one already known (it may be
     # skipped only when an SRV has just changed the host, because that branch reloads the lists itself)
     SCAN = '_get_address_records_from_cache_by_type'
@@ -454,7 +464,7 @@ def bound(ctx: Any) -> List[Ob]:
     return obs
 
 
-@rule('C18.CACHEKEYS', 'D', expect_min=2)
+@rule('C18.CACHEKEYS', 'D', expect_min=1)
 def cachekeys(ctx: Any) -> List[Ob]:
     """`cache-first` and `omitting questions whose answers it already holds` for names as users spell them: the lookup hands
     the instance name and the host name to the cache as spelled, so every cache read method it calls must lower-case the
@@ -465,7 +475,7 @@ def cachekeys(ctx: Any) -> List[Ob]:
     prog = ctx.prog
     info_c = prog.cls(INFO)
     called = cache_methods_reached(ctx, list(info_c.methods.values()))
-    if len(called) < 2:
+    if len(called) < 1:
         raise AnalysisError(f'anchor vanished: cache methods called by the lookup (found {sorted(called)})')
     out = [o for o in c05_keys.fn(ctx) if str(o.function) in called]
     for o in out:
